@@ -10,6 +10,7 @@ from ..evidence import Acc
 from ..progen import ancestors, dag_program, dag_shapes, out_name, shape_names
 
 PID = "C16"
+BOTH_CONSTRUCTION_PATHS = True  # every program once with constructor-built and once with decorator-built nodes (mc/dsl.py VIA)
 LEVEL = "exploration"
 TECHNIQUE = "bounded-exhaustive enumeration of (program, entry-point set, graph-level selection, run-time selection, on_missing, result kind) configurations on the real runners with a scope monitor over call log, result keys/values and warnings"
 LEVEL_TEXT = (
